@@ -38,7 +38,7 @@ def check(run: Run) -> None:
     if va is None or ge is None:
         raise AnalysisError("anchor vanished: ObjectStream.value_async / _get_executor")
     mod = m.module("func_adl.object_stream")
-    attr_const = mod.assigns.get("executor_attr_name")
+    attr_const = m.find_assign("executor_attr_name", mod.name)
     if not (isinstance(attr_const, ast.Constant) and isinstance(attr_const.value, str)):
         raise AnalysisError("executor_attr_name is not a string literal")
     exec_attr = attr_const.value
